@@ -109,6 +109,28 @@ Section Entry.
   Definition run_timestamps (mode : Z) (n : nat) (ts : list F) : res (list F) :=
     Ok (timestamps ts (if Z.eqb mode 0 then None else Some n)).
 
+  (* ---- the PUBLIC wrappers as generated from pydrex/velocity.py: letters 0..5 = X Y Z x y z;
+          which = 0 velocity callable, 1 gradient callable; t x0 x1 x2 params... (cell_2d with ONE
+          parameter: edge_length left at its default) ---- *)
+  Definition run_gen_wrap (which flow hl vl : Z) (xs : list F) : res (list F) :=
+    match xs with
+    | t :: x0 :: x1 :: x2 :: ps =>
+        let x := aolv [x0; x1; x2] in
+        let u := Z.eqb which 0 in
+        let r := match flow, ps with
+                 | 0%Z, [p] => if u then k_simple_shear_2d_wrap_u hl vl p t x else k_simple_shear_2d_wrap_L hl vl p t x
+                 | 1%Z, [p; q] => if u then k_cell_2d_wrap_u hl vl p q t x else k_cell_2d_wrap_L hl vl p q t x
+                 | 1%Z, [p] => if u then k_cell_2d_wrap_u_default hl vl p t x else k_cell_2d_wrap_L_default hl vl p t x
+                 | 2%Z, [p] => if u then k_corner_2d_wrap_u hl vl p t x else k_corner_2d_wrap_L hl vl p t x
+                 | _, _ => Err OtherError
+                 end in
+        match r with
+        | Err e => Err e
+        | Ok a => Ok (arr_to_list (if u then 3 else 9) a)
+        end
+    | _ => Err OtherError
+    end.
+
   (* ---- the code GENERATED from pydrex/pathlines.py (gen/Gen_pathlines.v), dimension 3 ---- *)
   (* pt(3) mn(3) mx(3) *)
   Definition run_gen_is_inside (xs : list F) : res (list F) :=
